@@ -473,5 +473,44 @@ theorem shape_Conn_initialise : Facts.shape_Conn_initialise = some "ea200d427896
 /-- [C06,C07] `Conn.Connected` is the body the model transcribes -/
 theorem shape_Conn_Connected : Facts.shape_Conn_Connected = some "e2923fb475642ec1" := by decide
 
+/-- [C02,C13] `Conn.h.JOIN` is the body the model transcribes -/
+theorem shape_Conn_h_JOIN : Facts.shape_Conn_h_JOIN = some "854ec6e3d7ba88b2" := by decide
+
+/-- [C02,C13] `Conn.h.PART` is the body the model transcribes -/
+theorem shape_Conn_h_PART : Facts.shape_Conn_h_PART = some "18ef056c9dd03e49" := by decide
+
+/-- [C02,C13] `Conn.h.KICK` is the body the model transcribes -/
+theorem shape_Conn_h_KICK : Facts.shape_Conn_h_KICK = some "df74f1564422b6fe" := by decide
+
+/-- [C02,C13] `Conn.h.QUIT` is the body the model transcribes -/
+theorem shape_Conn_h_QUIT : Facts.shape_Conn_h_QUIT = some "fcc5e93767cd9b87" := by decide
+
+/-- [C02,C13] `Conn.h.MODE` is the body the model transcribes -/
+theorem shape_Conn_h_MODE : Facts.shape_Conn_h_MODE = some "6c5897cd6fb2c431" := by decide
+
+/-- [C02,C13] `Conn.h.TOPIC` is the body the model transcribes -/
+theorem shape_Conn_h_TOPIC : Facts.shape_Conn_h_TOPIC = some "6dbfd9f4ba1e64ce" := by decide
+
+/-- [C02,C13] `Conn.h.311` is the body the model transcribes -/
+theorem shape_Conn_h_311 : Facts.shape_Conn_h_311 = some "da6476512c3c9d5c" := by decide
+
+/-- [C02,C13] `Conn.h.324` is the body the model transcribes -/
+theorem shape_Conn_h_324 : Facts.shape_Conn_h_324 = some "9a26b71307a4953a" := by decide
+
+/-- [C02,C13] `Conn.h.332` is the body the model transcribes -/
+theorem shape_Conn_h_332 : Facts.shape_Conn_h_332 = some "566c0f655946de46" := by decide
+
+/-- [C02,C13] `Conn.h.352` is the body the model transcribes -/
+theorem shape_Conn_h_352 : Facts.shape_Conn_h_352 = some "e7cc05a1ce7f1d00" := by decide
+
+/-- [C02,C13] `Conn.h.353` is the body the model transcribes -/
+theorem shape_Conn_h_353 : Facts.shape_Conn_h_353 = some "a9fc6ea966ff4192" := by decide
+
+/-- [C02,C13] `Conn.h.671` is the body the model transcribes -/
+theorem shape_Conn_h_671 : Facts.shape_Conn_h_671 = some "02a7cf48eb3f88f2" := by decide
+
+/-- [C02,C13] `Conn.h.CTCP` is the body the model transcribes -/
+theorem shape_Conn_h_CTCP : Facts.shape_Conn_h_CTCP = some "0aedd2d57bd72cb7" := by decide
+
 
 end FactsCheck
